@@ -154,6 +154,23 @@ impl Prop for C04 {
             .prop_map(|(file, history)| Case { file, history })
             .boxed()
     }
+    fn fixed_cases(_tier: Tier) -> Vec<Case> {
+        // scale: 70 000 single-entry blocks under a fan-out-2 index; the whole chromosome, halves, points
+        let whole = QOp::Interval { c: 0, a: PosSel::Zero, b: PosSel::Size };
+        let left = QOp::Interval { c: 0, a: PosSel::Zero, b: PosSel::Frac(40_000) };
+        let right = QOp::Interval { c: 0, a: PosSel::Frac(20_000), b: PosSel::Size };
+        vec![Case {
+            file: c02::deep_index_case(70_000),
+            history: vec![
+                whole.clone(),
+                QOp::Inside { c: 0, idx: 60_000, frac: 100, width: 3 },
+                left,
+                right,
+                QOp::Repeat(0),
+                whole,
+            ],
+        }]
+    }
     fn check(case: &Case, obs: &mut Obs) -> Result<(), String> {
         let input = &case.file.input;
         let o = &case.file.opts;
